@@ -90,7 +90,7 @@ func TestExploreSameSecond(t *testing.T) {
 }
 
 func TestPrintWitnesses(t *testing.T) {
-	for _, w := range append(Witnesses(), EqualDateWitness()) {
+	for _, w := range append(Witnesses(), EqualDateWitness(), OversizedWitness()) {
 		fmt.Printf("WITNESS %s %s\n", w.ID, strings.Join(w.Ops, " ;; "))
 	}
 }
